@@ -96,6 +96,14 @@ func main() {
 					vctx.ExtraEnv = []string{v}
 					f(vctx)
 				}
+				// contributed template set: the generic template rules (typing, closure, lexical
+				// contexts, placement) over the standard templates overlaid with contrib/stratoscale
+				if id == "C01" || id == "C09" || id == "C10" {
+					run.SetVariant("template=stratoscale")
+					vctx := props.NewCtx(run)
+					vctx.Contrib = "stratoscale"
+					f(vctx)
+				}
 				run.SetVariant("")
 				if t, ok := props.Thorough[id]; ok {
 					t(ctx)
